@@ -29,6 +29,7 @@ func newIdTuple(bndl *bpv7.Bundle) idTuple {
 // outbounding bundles.
 type IdKeeper struct {
 	data      map[idTuple]uint64
+	used      map[idTuple]bpv7.DtnTime
 	mutex     sync.Mutex
 	autoClean bool
 }
@@ -37,6 +38,7 @@ type IdKeeper struct {
 func NewIdKeeper() IdKeeper {
 	return IdKeeper{
 		data:      make(map[idTuple]uint64),
+		used:      make(map[idTuple]bpv7.DtnTime),
 		autoClean: true,
 	}
 }
@@ -58,6 +60,7 @@ func (idk *IdKeeper) updateUnless(bndl *bpv7.Bundle, taken func(bpv7.BundleID) b
 	} else {
 		idk.data[tpl] = 0
 	}
+	idk.used[tpl] = bpv7.DtnTimeNow()
 
 	bndl.PrimaryBlock.CreationTimestamp[1] = idk.data[tpl]
 	for taken != nil && taken(bndl.ID()) {
@@ -71,15 +74,17 @@ func (idk *IdKeeper) updateUnless(bndl *bpv7.Bundle, taken func(bpv7.BundleID) b
 	}
 }
 
-// clean removes states which are older than a day (DtnTime counts milliseconds) and aren't the epoch time.
+// clean removes states which were not used for a day (DtnTime counts milliseconds) and aren't the epoch time. The
+// time of the last usage counts, not the tuple's creation time: bundles might be created with an older timestamp.
 func (idk *IdKeeper) clean() {
 	idk.mutex.Lock()
 
 	var threshold = bpv7.DtnTimeNow() - 60*60*24*1000
 
-	for tpl := range idk.data {
-		if tpl.time < threshold && tpl.time != bpv7.DtnTimeEpoch {
+	for tpl, used := range idk.used {
+		if used < threshold && tpl.time != bpv7.DtnTimeEpoch {
 			delete(idk.data, tpl)
+			delete(idk.used, tpl)
 		}
 	}
 	idk.mutex.Unlock()
